@@ -398,3 +398,27 @@ example :
   decide
 
 end Remoc.Table.Sys
+
+namespace Remoc.Table.Sys
+open Remoc.Wire Remoc.Table
+
+/-- **An `accepted` resolution matches what the peer did**: whenever a `PortOpened cp sp` is in
+flight towards a side (in particular when it is about to be delivered and logged as
+`resolved _ cp (accepted sp)`), the peer's table holds the port `sp` that its listener side created
+for this request: connected to `cp`, with no remote flag set, and nothing has been sent for it yet. -/
+theorem accepted_matches_peer (mpA cqA mpB cqB : Nat) (ls : List (Who × Lab)) (x : Who) (cp sp : Nat) :
+    let s := run (init mpA cqA mpB cqB) ls
+    Msg.portOpened cp sp ∈ wireTo s x →
+    ∃ d, lookup (side s (peer x)).ep.ports sp = some (.connected d) ∧ d.remote = cp ∧
+      d.remoteSendFinished = false ∧ d.remoteRecvDropped = false := by
+  intro s hin
+  have hi := inv2_run _ ls (inv2_init mpA cqA mpB cqB)
+  cases x with
+  | A =>
+    obtain ⟨d, h1, h2, h3, _, h5, _⟩ := hi.ob cp sp hin
+    exact ⟨d, h1, h2, h3, h5⟩
+  | B =>
+    obtain ⟨d, h1, h2, h3, _, h5, _⟩ := hi.oa cp sp hin
+    exact ⟨d, h1, h2, h3, h5⟩
+
+end Remoc.Table.Sys
